@@ -1,3 +1,17 @@
 //! Safe-Rust verification hooks for this module (accessors/wrappers only; no logic).
 #![allow(missing_docs, unused_imports, dead_code)]
 use super::*;
+
+// ---- statime_h (C42/C43): identifiers from raw parts (ClockId::new / LinkId::new draw from a global counter)
+pub fn clock_id_from_raw(v: usize) -> ClockId {
+    ClockId(v)
+}
+pub fn clock_id_raw(id: ClockId) -> usize {
+    id.0
+}
+pub fn link_id_from_raw(a: ClockId, b: ClockId, n: usize) -> LinkId {
+    LinkId(a, b, n)
+}
+pub fn link_id_serial(id: LinkId) -> usize {
+    id.2
+}
